@@ -4,6 +4,8 @@
     order, by the next ring poll whose enter succeeds with a free slot. (The two-thread race of
     the second sentence, finding H15, is the subject of the scheduler runs, not of this model.)
     Property theorems only; model in Model/OpState.v, proofs in Proofs/OpStateWake.v. *)
+(* the small-step race model first: the names of Model/OpState.v imported next take precedence *)
+From A10 Require Import Model.OpRace Proofs.OpRaceProofs.
 From A10 Require Import Base.Word Base.Run Model.OpState Proofs.OpStateInv Proofs.OpStateWake.
 
 Theorem C03_readying_completion_wakes_latest_waker : readying_completion_wakes_latest_waker.
@@ -30,3 +32,42 @@ Check C03_end_of_poll_wakes_parked : end_of_poll_wakes_parked.
 Print Assumptions C03_queue_full_waiter_is_parked.
 Print Assumptions C03_end_of_poll_wakes_parked.
 Print Assumptions C03_parked_only_if_queue_full_refuted.
+
+(** * Two threads and more: futures polled / dropped on future threads while [Ring::poll] runs on
+    the ring thread, at the granularity of the hook-B scheduling points (Model/OpRace.v,
+    Proofs/OpRaceProofs.v): all numbers of operations and threads, all capacities, all programs
+    obeying Rust's ownership rules ([progs_ok]), ALL interleavings. The executed interleavings of
+    the real code are replayed on this model by the driver C03R on every run of this check. *)
+
+(** No lost wake-up under interleaving: once the completion that makes an operation ready has
+    been dispatched, the waker of its MOST RECENT Pending poll has been invoked since that poll. *)
+Theorem C03_race_readying_completion_wakes_latest_waker :
+  OpRaceProofs.race_readying_completion_wakes_latest_waker.
+Proof. exact OpRaceProofs.race_readying_completion_wakes_latest_waker_holds. Qed.
+
+(** Parked wakers under interleaving: on the blocked list when the poll returns; never lost by
+    the take / re-queue of [wake_blocked_futures] whatever is pushed meanwhile; every poll ends
+    with [wake_blocked_futures], which wakes the oldest [min available |list|] with
+    [available] at least the free slots of that moment. *)
+Theorem C03_race_parked_waker_is_woken : OpRaceProofs.race_parked_waker_is_woken.
+Proof. exact OpRaceProofs.race_parked_waker_is_woken_holds. Qed.
+
+(** The code before the repair of H15: a waker parked while a poll was in progress is never woken
+    by any number of later polls although the queue is empty. *)
+Theorem C03_race_parked_waker_h15_lost : OpRaceProofs.race_parked_waker_h15_lost.
+Proof. exact OpRaceProofs.race_parked_waker_h15_lost_holds. Qed.
+
+(** Per operation the small-step execution is an execution of the atomic life cycle of
+    Model/OpState.v with stuttering (what is missing for a full linearisation is said next to the
+    statement). *)
+Theorem C03_race_refines_atomic_per_operation_partial : OpRaceProofs.race_refines_atomic_per_operation_partial.
+Proof. exact OpRaceProofs.race_refines_atomic_per_operation_partial_holds. Qed.
+
+Check C03_race_readying_completion_wakes_latest_waker : OpRaceProofs.race_readying_completion_wakes_latest_waker.
+Check C03_race_parked_waker_is_woken : OpRaceProofs.race_parked_waker_is_woken.
+Check C03_race_parked_waker_h15_lost : OpRaceProofs.race_parked_waker_h15_lost.
+Check C03_race_refines_atomic_per_operation_partial : OpRaceProofs.race_refines_atomic_per_operation_partial.
+Print Assumptions C03_race_readying_completion_wakes_latest_waker.
+Print Assumptions C03_race_parked_waker_is_woken.
+Print Assumptions C03_race_parked_waker_h15_lost.
+Print Assumptions C03_race_refines_atomic_per_operation_partial.
